@@ -45,7 +45,12 @@ def cases(tier, seed):
             single = len(idx) == 1 and rng.random() < 0.5
             qs.append({"s": s, "colidx": [i + 1 for i in idx], "colnames": [allcols[i] for i in idx], "single": single,
                        "explicit": rng.random() < 0.3})
+        joined = which == "pixels" and h % 2 == 1          # the same selections through pixels(join=True)
+        if joined:
+            for q in qs:
+                q["single"] = False
         yield "sel.table", {"table": table, "mode": mode, "px": px, "w": w, "which": which, "rows": rows, "allcols": allcols, "qs": qs,
+                            "joined": joined,
                             "encoding": "enum" if h % 4 else "int", **({"at": ["/resolutions/5", "/a/b"][h % 2]} if h % 5 == 2 else {})}
     # (2) annotation
     for h in range(450 if tier == "quick" else 8000):
